@@ -8,6 +8,7 @@ Exit status: 0 held (known findings are printed as KNOWN-FINDING lines), 1 viola
 """
 from __future__ import annotations
 
+import logging
 import hashlib
 import json
 import os
@@ -246,3 +247,192 @@ def main_for(module, argv=None) -> int:
     tb = traceback.format_exc()
     print(f"MACHINERY-FAILURE property={module.PID}:\n{tb}", file=sys.stderr)
     return finish(ctx, error=tb)
+
+
+# ---------------------------------------------------------------------------------------------------------------------
+# the caller's process context
+# ---------------------------------------------------------------------------------------------------------------------
+
+class AltContext:
+  """What the properties state holds whatever the CALLER has done to the process: here DEBUG logging is switched on for the
+  library, with a handler that formats every record it receives (as unittest's assertLogs, pytest's caplog or a JSON log
+  handler do), warnings are errors (python -W error), and the thread's decimal context has low precision and ROUND_DOWN.
+  Part of the cases of every check are observed inside such a context; the observations must be what they are in the quiet
+  default context.  use=0 gives a context manager that does nothing; use=2 additionally makes `.progress` a progress
+  callback that OVERLAPS the observed operation with complete other operations (see other_operations)."""
+
+  class _Formats(logging.Handler):
+    def emit(self, record):
+      record.getMessage()              # a malformed format / argument pair raises here, in the code that logged
+
+  def __init__(self, use=1):
+    self.use = int(use)
+    self.progress = overlapping_callback() if self.use == 2 else (lambda _x: None)
+
+  def __enter__(self):
+    if not self.use:
+      return self
+    import warnings
+    if self.use == 2:
+      overlapping_callback()(0)        # other operations have also run in this process just before the observed one
+    self.logger = logging.getLogger("ttconv")
+    self.level = self.logger.level
+    self.handler = AltContext._Formats(level=logging.DEBUG)
+    self.logger.addHandler(self.handler)
+    self.logger.setLevel(logging.DEBUG)
+    self.cw = warnings.catch_warnings()
+    self.cw.__enter__()
+    warnings.simplefilter("error")
+    import decimal
+    self.dc = decimal.localcontext()
+    c = self.dc.__enter__()
+    c.prec = 7                         # an application that has configured decimal arithmetic for its own purposes
+    c.rounding = decimal.ROUND_DOWN
+    return self
+
+  def __exit__(self, *exc):
+    if not self.use:
+      return False
+    self.dc.__exit__(*exc)
+    self.cw.__exit__(*exc)
+    self.logger.removeHandler(self.handler)
+    self.logger.setLevel(self.level)
+    return False
+
+
+def alt_for(key) -> int:
+  """Deterministic choice of the cases (about one in five) that are observed in the alternative context: 0 = default
+  context, 1 = alternative context, 2 = alternative context and overlapping operations."""
+  import zlib
+  h = zlib.crc32(repr(key).encode()) % 10
+  return 1 if h == 2 else 2 if h == 7 else 0
+
+
+# ---- overlapping operations ---------------------------------------------------------------------------------------------
+# A caller may start a second conversion while the first has not finished: from the progress callback of the first (a
+# preview, a second deliverable), or from another thread.  The first progress report of the observed operation triggers
+# complete other operations of every kind - readers, writers, snapshots, the document filter - on small fixed inputs with
+# settings unlike the observed one's; whatever they leave behind (module / class level state) must not show in the result.
+
+_OTHER_TTML = """<?xml version="1.0" encoding="UTF-8"?>
+<tt xmlns="http://www.w3.org/ns/ttml" xmlns:ttp="http://www.w3.org/ns/ttml#parameter" xmlns:tts="http://www.w3.org/ns/ttml#styling"
+    xmlns:ittp="http://www.w3.org/ns/ttml/profile/imsc1#parameter" xmlns:itts="http://www.w3.org/ns/ttml/profile/imsc1#styling"
+    xml:lang="zz" xml:space="preserve" ttp:frameRate="50" ttp:frameRateMultiplier="1000 1001" ttp:tickRate="7"
+    ttp:cellResolution="50 20" tts:extent="1000px 500px" ittp:activeArea="10% 10% 80% 80%" ittp:aspectRatio="4 3">
+ <head><styling><initial tts:color="#010203" tts:fontSize="200%"/><style xml:id="zs" tts:fontStyle="italic" tts:textAlign="end"/></styling>
+  <layout><region xml:id="zr" tts:origin="100px 50px" tts:extent="500px 250px" tts:writingMode="tbrl" begin="3f" end="70t"
+    tts:displayAlign="after" tts:backgroundColor="#11223344" tts:showBackground="whenActive"><set begin="7t" tts:opacity="0.5"/></region></layout></head>
+ <body timeContainer="seq" style="zs"><div region="zr" begin="1f"><p xml:id="zp" dur="00:00:01:25"><span tts:textDecoration="underline">  nested  <br/>op</span>
+ </p><p begin="14t" end="00:00:09.5" tts:ruby="container"><span tts:ruby="base">b</span><span tts:ruby="text">t</span></p></div></body></tt>
+"""
+_OTHER_SRT = "7\n00:01:02,345 --> 00:01:04,000\n<i>nested</i> {\\an8}<font color=\"#010203\">srt</font>\n\n8\n00:59:59,999 --> 01:00:00,001\nsecond\n"
+_OTHER_VTT = ("WEBVTT other\n\nSTYLE\n::cue { color: lime }\n\nzz\n01:02.345 --> 01:04.000 line:3 align:end position:20%\n"
+              "<v Other><i>nested</i> &amp; <c.red.bg_blue>vtt</c>\n<ruby>b<rt>t</rt></ruby>\n\n59:59.999 --> 01:00:00.001 line:-2\nsecond\n")
+_OTHER_SCC = ("Scenarist_SCC V1.0\n\n00:00:01;05\t9425 9425 94ad 94ad 9470 9470 91ae 91ae cef4 e8e5 f280\n\n"
+              "00:00:02;10\t1c20 1c20 1c52 1c52 d3e5 e3ef 6e64 1c2f 1c2f\n\n00:00:03;00\t9420 9420 9454 9454 97a1 97a1 d0ef f080 942f 942f\n\n"
+              "00:00:05;00\t942c 942c\n")
+_OTHER_STATE = {"depth": 0, "stl": None}
+
+
+def _other_document():
+  """A small document that uses what the fixed inputs above do not reach (built through the model API)."""
+  from fractions import Fraction
+  import ttconv.model as m
+  import ttconv.style_properties as sp
+  doc = m.ContentDocument()
+  doc.set_lang("zz")
+  doc.set_cell_resolution(m.CellResolutionType(rows=19, columns=41))
+  doc.put_initial_value(sp.StyleProperties.Color, sp.NamedColors.lime.value)
+  r = m.Region("zr2", doc)
+  r.set_style(sp.StyleProperties.Origin, sp.CoordinateType(x=sp.LengthType(10, sp.LengthType.Units.pct), y=sp.LengthType(20, sp.LengthType.Units.pct)))
+  r.set_style(sp.StyleProperties.Extent, sp.ExtentType(width=sp.LengthType(70, sp.LengthType.Units.pct), height=sp.LengthType(30, sp.LengthType.Units.pct)))
+  r.set_begin(Fraction(1, 3))
+  doc.put_region(r)
+  body = m.Body(doc)
+  doc.set_body(body)
+  div = m.Div(doc)
+  body.push_child(div)
+  for k, (b, e) in enumerate([(Fraction(1, 3), Fraction(10, 3)), (Fraction(7, 2), None)]):
+    p = m.P(doc)
+    p.set_id("zq%d" % k)
+    p.set_region(r)
+    p.set_begin(b)
+    p.set_end(e)
+    div.push_child(p)
+    s = m.Span(doc)
+    s.set_style(sp.StyleProperties.FontWeight, sp.FontWeightType.bold)
+    p.push_child(s)
+    t = m.Text(doc, "nested %d" % k)
+    s.push_child(t)
+    if k == 0:
+      p.push_child(m.Br(doc))
+      s2 = m.Span(doc)
+      s2.add_animation_step(m.DiscreteAnimationStep(sp.StyleProperties.Color, Fraction(1, 2), Fraction(2), sp.NamedColors.red.value))
+      p.push_child(s2)
+      s2.push_child(m.Text(doc, "x"))
+  return doc
+
+
+def other_operations():
+  """One complete operation of every kind, on the fixed inputs, with unusual settings."""
+  import io
+  import xml.etree.ElementTree as et
+  from fractions import Fraction
+  import ttconv.imsc.reader as imsc_reader
+  import ttconv.imsc.writer as imsc_writer
+  import ttconv.imsc.config as imsc_config
+  from ttconv.imsc.attributes import TimeExpressionSyntaxEnum
+  import ttconv.srt.reader as srt_reader
+  import ttconv.srt.writer as srt_writer
+  from ttconv.srt.config import SRTWriterConfiguration
+  import ttconv.vtt.reader as vtt_reader
+  import ttconv.vtt.writer as vtt_writer
+  from ttconv.vtt.config import VTTWriterConfiguration
+  import ttconv.scc.reader as scc_reader
+  from ttconv.scc.config import SccReaderConfiguration, TextAlignment
+  import ttconv.stl.reader as stl_reader
+  from ttconv.stl.config import STLReaderConfiguration
+  from ttconv.isd import ISD
+  from ttconv.filters.doc.lcd import LCDDocFilter, LCDDocFilterConfig
+  import ttconv.style_properties as sp
+  doc = _other_document()
+  imsc_writer.from_model(doc, imsc_config.IMSCWriterConfiguration(time_format=TimeExpressionSyntaxEnum.frames, fps=Fraction(50)))
+  imsc_writer.from_model(doc, imsc_config.IMSCWriterConfiguration(time_format=TimeExpressionSyntaxEnum.clock_time_with_frames,
+                                                                  fps=Fraction(24)))
+  d2 = imsc_reader.to_model(et.ElementTree(et.fromstring(_OTHER_TTML)))
+  ISD.from_model(d2, Fraction(3, 2))
+  list(ISD.significant_times(d2))
+  srt_writer.from_model(doc, SRTWriterConfiguration(text_formatting=False))
+  vtt_writer.from_model(doc, VTTWriterConfiguration(line_position=True, text_align=True, cue_id=False))
+  srt_reader.to_model(io.StringIO(_OTHER_SRT))
+  vtt_reader.to_model(io.StringIO(_OTHER_VTT))
+  scc_reader.to_model(_OTHER_SCC, SccReaderConfiguration(text_align=TextAlignment.RIGHT))
+  if _OTHER_STATE["stl"] is None:
+    from . import stl_build as SB
+    gsi = {"dfc": "STL30.01", "dsc": "0", "cct": "00", "tcp": [9, 59, 59, 0], "mnr": 11}
+    blocks = [{"sgn": 1, "sn": 3, "ebn": 0xFF, "cs": 0, "tci": [10, 0, 1, 7], "tco": [10, 0, 2, 11], "vp": 5, "jc": 1, "cf": 0,
+               "tf": [0x0D, 0x80, 0x4F, 0x74, 0x68, 0x8A, 0x65, 0x72, 0x81]}]
+    _OTHER_STATE["stl"] = SB.build_file(gsi, blocks)
+  stl_reader.to_model(io.BytesIO(_OTHER_STATE["stl"]), STLReaderConfiguration(program_start_tc="TCP", max_row_count=11, disable_fill_line_gap=True))
+  LCDDocFilter(LCDDocFilterConfig(safe_area=7, color=sp.NamedColors.yellow.value, bg_color=sp.NamedColors.blue.value,
+                                  preserve_text_align=True)).process(doc)
+  ISD.from_model(doc, Fraction(1))
+
+
+def overlapping_callback():
+  """A progress callback: at the first progress report of the operation it is given to, other_operations() runs."""
+  state = {"done": False}
+
+  def cb(_x):
+    if state["done"] or _OTHER_STATE["depth"]:
+      return
+    state["done"] = True
+    _OTHER_STATE["depth"] += 1
+    was = logging.root.manager.disable
+    logging.disable(logging.CRITICAL)        # what the other operations log is not an observation of this one
+    try:
+      other_operations()
+    finally:
+      logging.disable(was)
+      _OTHER_STATE["depth"] -= 1
+  return cb
